@@ -15,7 +15,7 @@ def make(pid, flags, own_prefixes, nontrivial, extra_exc=()):
         viol, summ = hist.run_case(case, flags)
         st = summ["stats"]
         classes = [f"workers={case['spec']['workers']}", f"n={case['spec']['n']}"]
-        for key in ("zero_swap_jobs", "events_with>=2_in_flight", "steps_with_busy_column", "replacements", "kill_with_jobs_in_flight"):
+        for key in ("zero_swap_jobs", "events_with>=2_in_flight", "steps_with_busy_column", "replacements", "kill_with_jobs_in_flight", "deletions", "deletions_while_jobs_in_flight"):
             if st.get(key):
                 classes.append("has:" + key)
         if summ["restarts"]:
